@@ -237,3 +237,4 @@ Example C17_ttx_full_example :
   tf_reads (tf_of [1;2;3;4;5;6;7]%N SEof [1;0;2]%nat true) [3;3;3;3]%nat =
   Some [([1;2;3]%N, None); ([4;5;6]%N, None); ([7]%N, None); ([], Some TfEOF)].
 Proof. reflexivity. Qed.
+Print Assumptions C17_ttx_full_example.
